@@ -322,6 +322,10 @@ func runC17(rc *RunCtx) *simkit.Violation {
 							return nil, nil
 						}
 					}
+					if err := fs.ReleaseDirHandle(bg, &fuseops.ReleaseDirHandleOp{}); err != nil {
+						fail("release-failed", "ReleaseDirHandle", dir, "ReleaseDirHandle(%q) failed: %v", dir, err)
+						return nil, nil
+					}
 					w.Probe("readdir-resumed")
 				case 3: // read a file at any offset and length, also at and after EOF
 					if !isFile {
@@ -335,8 +339,28 @@ func runC17(rc *RunCtx) *simkit.Violation {
 						}
 					}
 					ln := []int{1, 7, int(leaf), int(leaf) + 1, 2*int(leaf) + 3, 4096}[st.b%6]
+					// the kernel opens before it reads, and flushes / releases the handle afterwards
+					if err := fs.OpenFile(bg, &fuseops.OpenFileOp{Inode: ino}); err != nil {
+						fail("open-failed", "OpenFile", st.path, "OpenFile(%q) failed: %v", st.path, err)
+						return nil, nil
+					}
 					op := &fuseops.ReadFileOp{Inode: ino, Offset: int64(off), Dst: make([]byte, ln)}
 					err := fs.ReadFile(bg, op)
+					if e2 := fs.FlushFile(bg, &fuseops.FlushFileOp{Inode: ino}); e2 != nil {
+						fail("flush-failed", "FlushFile", st.path, "FlushFile(%q) failed: %v", st.path, e2)
+						return nil, nil
+					}
+					if e2 := fs.ReleaseFileHandle(bg, &fuseops.ReleaseFileHandleOp{}); e2 != nil {
+						fail("release-failed", "ReleaseFileHandle", st.path, "ReleaseFileHandle(%q) failed: %v", st.path, e2)
+						return nil, nil
+					}
+					if st.b%5 == 0 {
+						// cache pressure: the kernel forgets the inode; the next use looks it up again
+						if e2 := fs.ForgetInode(bg, &fuseops.ForgetInodeOp{Inode: ino, N: 1}); e2 != nil {
+							fail("forget-failed", "ForgetInode", st.path, "ForgetInode(%q) failed: %v", st.path, e2)
+							return nil, nil
+						}
+					}
 					if err != nil {
 						if faulty && fired(w) { // any error is acceptable under store failures (the FUSE server maps it to EIO)
 							w.Probe("read-eio-under-fault")
